@@ -50,7 +50,7 @@ func (e *env) evalCase(name string, script []string) (what string, agree bool, f
 	agree = true
 	impl := []string{"ok", implLine(k, o)}
 	var mo []string
-	if e.model != nil {
+	if e.model != nil && !methodArgs(k.method).handler {
 		mo = e.model.Batch(k.modelLines(e.strict))
 		mo[1] = canonModel(k, mo[1])
 		if mo[0] != impl[0] || mo[1] != impl[1] {
@@ -60,7 +60,7 @@ func (e *env) evalCase(name string, script []string) (what string, agree bool, f
 	if what != "" {
 		found = append(found, hx.Finding{Kind: "oracle", What: what, Detail: detail, Case: name, Script: script, Impl: impl, Model: mo})
 	}
-	if !agree {
+	if !agree && mo != nil {
 		w := "model/implementation differ"
 		if what != "" {
 			w += " (" + what + ")"
@@ -89,7 +89,14 @@ func (e *env) handle(name string, script []string, bucket string) {
 	o := k.execImpl()
 	content := k.content()
 	nontrivial := len(k.items) >= 2 || k.term >= 0 || int64(len(content)) != k.size
-	e.run.Case(script, nontrivial, e.model != nil)
+	ma := methodArgs(k.method)
+	e.run.Case(script, nontrivial, e.model != nil && !ma.handler)
+	if ma.task {
+		e.run.Count("decoration:WithTask")
+	}
+	if ma.handler {
+		e.run.Count("decoration:WithErrorHandler(oracle only)")
+	}
 	e.run.Count("ctor:" + k.ctor)
 	e.run.Count("method:" + methodArgs(k.method).leaf)
 	e.run.Count("fn:" + k.fn.name)
@@ -106,19 +113,24 @@ func (e *env) flush() {
 	q := e.queue
 	e.queue = nil
 	var replies []string
+	pos := make([]int, len(q)) // index of the case's first reply, -1 if it is not sent to the model
 	if e.model != nil {
 		var lines []string
-		for _, c := range q {
-			lines = append(lines, c.k.modelLines(e.strict)...)
+		for i, c := range q {
+			pos[i] = -1
+			if !methodArgs(c.k.method).handler {
+				pos[i] = len(lines)
+				lines = append(lines, c.k.modelLines(e.strict)...)
+			}
 		}
 		replies = e.model.Batch(lines)
 	}
 	for i, c := range q {
 		what, _ := oracle(c.k, c.o)
 		agree := true
-		if replies != nil {
+		if replies != nil && pos[i] >= 0 {
 			e.run.Compared(1)
-			agree = replies[2*i] == "ok" && canonModel(c.k, replies[2*i+1]) == implLine(c.k, c.o)
+			agree = replies[pos[i]] == "ok" && canonModel(c.k, replies[pos[i]+1]) == implLine(c.k, c.o)
 		}
 		if what == "" && agree {
 			continue
